@@ -9,6 +9,10 @@
 //   <pid> cr   <path>          open/openat/creat with O_CREAT, fopen/freopen with w/a mode (succeeded)
 //   <pid> rm   <path>          unlink/unlinkat/remove/rmdir (succeeded)
 //   <pid> mv   <old> <new>     rename family (succeeded)
+//   <pid> fk   <child pid>     fork / posix_spawn[p] returned a child (0 = child pid not known)
+//   <pid> wt   <child pid>     wait / waitpid / wait3 / wait4 / waitid reaped that child
+// fk/wt records of one process are in its program order: a process that forks while an earlier child is unreaped
+// runs steps concurrently (vfork cannot be wrapped; such a driver is recognised by its overlapping step records).
 // The checker decides which `cr` paths are temporaries (location), so nothing is filtered here.
 // build: gcc -O2 -shared -fPIC -o c14_preload.so c14_preload.c -ldl
 #define _GNU_SOURCE
@@ -16,12 +20,16 @@
 #include <errno.h>
 #include <fcntl.h>
 #include <limits.h>
+#include <signal.h>
+#include <spawn.h>
 #include <stdarg.h>
 #include <stdio.h>
 #include <stdlib.h>
 #include <string.h>
 #include <sys/stat.h>
+#include <sys/resource.h>
 #include <sys/types.h>
+#include <sys/wait.h>
 #include <unistd.h>
 
 static int logfd = -2;
@@ -92,6 +100,18 @@ static void rec(const char *op, int fd1, const char *p1, int fd2, const char *p2
   errno = saved;
 }
 
+static void rec_pid(const char *op, long child) {
+  int saved = errno;
+  open_log();
+  if (logfd >= 0) {
+    char line[96];
+    int n = snprintf(line, sizeof line, "%d\t%s\t%ld\n", (int)getpid(), op, child);
+    if (n > 0 && write(logfd, line, n) < 0) {
+    }
+  }
+  errno = saved;
+}
+
 __attribute__((constructor)) static void c14_init(void) {
   char exe[PATH_MAX];
   ssize_t k = readlink("/proc/self/exe", exe, sizeof exe - 1);
@@ -151,3 +171,16 @@ int rmdir(const char *path) { REAL(rmdir); int r = real(path); if (r == 0) rec("
 int rename(const char *a, const char *b) { REAL(rename); int r = real(a, b); if (r == 0) rec("mv", AT_FDCWD, a, AT_FDCWD, b); return r; }
 int renameat(int fa, const char *a, int fb, const char *b) { REAL(renameat); int r = real(fa, a, fb, b); if (r == 0) rec("mv", fa, a, fb, b); return r; }
 int renameat2(int fa, const char *a, int fb, const char *b, unsigned fl) { REAL(renameat2); int r = real(fa, a, fb, b, fl); if (r == 0) rec("mv", fa, a, fb, b); return r; }
+
+// ---- process creation / reaping -----------------------------------------------
+pid_t fork(void) { REAL(fork); pid_t r = real(); if (r > 0) rec_pid("fk", r); return r; }
+int posix_spawn(pid_t *pid, const char *path, const posix_spawn_file_actions_t *fa, const posix_spawnattr_t *at, char *const argv[], char *const envp[]) {
+  REAL(posix_spawn); pid_t tmp = 0; int r = real(pid ? pid : &tmp, path, fa, at, argv, envp); if (r == 0) rec_pid("fk", pid ? *pid : tmp); return r; }
+int posix_spawnp(pid_t *pid, const char *file, const posix_spawn_file_actions_t *fa, const posix_spawnattr_t *at, char *const argv[], char *const envp[]) {
+  REAL(posix_spawnp); pid_t tmp = 0; int r = real(pid ? pid : &tmp, file, fa, at, argv, envp); if (r == 0) rec_pid("fk", pid ? *pid : tmp); return r; }
+pid_t wait(int *st) { REAL(wait); pid_t r = real(st); if (r > 0) rec_pid("wt", r); return r; }
+pid_t waitpid(pid_t p, int *st, int o) { REAL(waitpid); pid_t r = real(p, st, o); if (r > 0) rec_pid("wt", r); return r; }
+pid_t wait3(int *st, int o, struct rusage *ru) { REAL(wait3); pid_t r = real(st, o, ru); if (r > 0) rec_pid("wt", r); return r; }
+pid_t wait4(pid_t p, int *st, int o, struct rusage *ru) { REAL(wait4); pid_t r = real(p, st, o, ru); if (r > 0) rec_pid("wt", r); return r; }
+int waitid(idtype_t t, id_t id, siginfo_t *info, int o) {
+  REAL(waitid); int r = real(t, id, info, o); if (r == 0 && info && info->si_pid > 0 && !(o & WNOWAIT)) rec_pid("wt", info->si_pid); return r; }
